@@ -136,6 +136,8 @@ pub struct Case<'a> {
     /// Some(k): k bytes of the text are buffered as well before the scan starts (the first look-ups
     /// hit the buffer, the realigning refill happens in the middle of the scan)
     pub displaced: Option<usize>,
+    /// the reader has already buffered everything and seen the end of the input before the scan
+    pub complete: bool,
 }
 
 /// Serves a fixed prefix (as much as fits per read, never mixed with the inner source), then the
@@ -181,6 +183,11 @@ pub fn exec(case: &Case, forced: Vec<(u32, u32)>) -> (Vec<(u32, u32)>, Option<St
             reader.advance(displaced_by);
             pre_calls.set(st.borrow().read_calls);
         }
+        if case.complete {
+            // buffer everything and see the end of the input first
+            reader.request(case.s.len() + 1);
+            pre_calls.set(st.borrow().read_calls);
+        }
         let r = match case.scan {
             Scan::TabsOrSpaces => text::tabs_or_spaces(&mut reader, case.offset),
             Scan::Newline => text::newline(&mut reader, case.offset),
@@ -204,7 +211,12 @@ pub fn exec(case: &Case, forced: Vec<(u32, u32)>) -> (Vec<(u32, u32)>, Option<St
             if buf_len != st.pos || buf[..] != case.s[..st.pos.min(case.s.len())] {
                 problems.push(("buffer".into(), format!("buffered data {:?} is not the delivered prefix ({} bytes delivered)", show(&buf), st.pos)));
             }
-            let (pos, calls, eofs) = reference_reads(case.s, &st.log, case.chunk, need, pre_calls.get());
+            let (pos, calls, eofs) = if case.complete {
+                // everything is buffered and the end was seen: the scan must not touch the source
+                (case.s.len(), pre_calls.get(), 1)
+            } else {
+                reference_reads(case.s, &st.log, case.chunk, need, pre_calls.get())
+            };
             if (st.pos, st.read_calls, st.eof_returned) != (pos, calls, eofs) {
                 let kind = if st.read_calls > calls { "over-read" } else { "under-read" };
                 problems.push((
@@ -281,6 +293,7 @@ fn replay_value(case: &Case, taken: &[(u32, u32)]) -> Value {
         "offset": case.offset,
         "chunk": case.chunk,
         "displaced": case.displaced,
+        "complete": case.complete,
         "choices": taken.iter().map(|(c, n)| json!([c, n])).collect::<Vec<_>>(),
     })
 }
@@ -312,7 +325,26 @@ fn check_string_variants(s: &[u8], offsets: &[usize], chunks: &[usize], bound: O
                 if displaced.is_some() && (chunk > 4 || s.len() > displaced_max_len || offset > s.len() + 1 || displaced.unwrap() > s.len()) {
                     continue;
                 }
-                let case = Case { s, offset, scan, chunk, displaced };
+                // the same scan on a reader that has already seen the end of the input (default
+                // schedule only: how the data arrived before does not matter)
+                if displaced.is_none() && property == "C16" && offset <= s.len() + 1 {
+                    let case = Case { s, offset, scan, chunk, displaced: None, complete: true };
+                    let (taken, diverged, outcome) = exec(&case, vec![]);
+                    report.evaluations += 1;
+                    report.count("scans_on_a_reader_that_has_seen_the_end", 1);
+                    if let Some(d) = diverged {
+                        report.machinery_errors.push(format!("C16 nondeterminism: {d}"));
+                    }
+                    for (kind, what) in outcome.problems {
+                        report.violation(
+                            format!("scanner/{}/at-end/{}", scan.name(), kind),
+                            format!("{}({:?}, offset {}{}) chunk {} on a reader that has already seen the end of the input: {}", scan.name(), show(s), offset, if let Scan::Fixed(p) = scan { format!(", pattern {:?}", show(p)) } else { String::new() }, chunk, what),
+                            replay_value(&case, &taken),
+                            (s.len() * 100) as u64,
+                        );
+                    }
+                }
+                let case = Case { s, offset, scan, chunk, displaced, complete: false };
                 let mut local_err = None;
                 let r = explore(
                     bound,
@@ -529,7 +561,7 @@ pub fn run(tier: Tier, report: &mut Report) {
         (&b"xx x\n"[..], 0, Scan::Fixed(b"xx\r".to_vec()), 2, vec![(1, 2)]),
         (&b"\t\r x\n "[..], 1, Scan::NextNewline, 16384, vec![(2, 6)]),
     ] {
-        let case = Case { s, offset, scan: &scan, chunk, displaced: None };
+        let case = Case { s, offset, scan: &scan, chunk, displaced: None, complete: false };
         let (taken, _, outcome) = exec(&case, forced);
         let mut v = replay_value(&case, &taken);
         v["returned"] = json!(outcome.result);
@@ -548,7 +580,7 @@ pub fn replay(v: &Value) -> (bool, String) {
         _ => Scan::Fixed(unhex(v["pattern_hex"].as_str().unwrap())),
     };
     let forced: Vec<(u32, u32)> = v["choices"].as_array().unwrap().iter().map(|c| (c[0].as_u64().unwrap() as u32, c[1].as_u64().unwrap() as u32)).collect();
-    let case = Case { s: &s, offset: v["offset"].as_u64().unwrap() as usize, scan: &scan, chunk: v["chunk"].as_u64().unwrap() as usize, displaced: v["displaced"].as_u64().map(|k| k as usize) };
+    let case = Case { s: &s, offset: v["offset"].as_u64().unwrap() as usize, scan: &scan, chunk: v["chunk"].as_u64().unwrap() as usize, displaced: v["displaced"].as_u64().map(|k| k as usize), complete: v["complete"].as_bool().unwrap_or(false) };
     let (taken, diverged, outcome) = exec(&case, forced.clone());
     let (_, _, outcome2) = exec(&case, forced);
     let mut text = format!(
